@@ -1408,3 +1408,150 @@ def c10_block_boundaries(ctx, d, centre):
     close(ctx, 'in-place==out-of-place/subspace', C.T.dot(C), U.T.dot(U), 1e-7)
     w = np.linspace(1, 2, k)
     close(ctx, 'project(instance(w))==w', m.project(m.instance(w)), w, 1e-8)
+
+
+# ------------------------------------------------ C01: batched warps (bounded)
+@contract('C01', 'batched_warps', level='bounded', native_samples=2, configs=[dict(cls=c, tr=t) for c in ('Image', 'MaskedImage', 'BooleanImage')
+                                                                             for t in ('Affine', 'Rotation', 'UniformScale', 'ThinPlateSplines', 'PiecewiseAffine')],
+          functions=['menpo.image.base:Image.warp_to_shape', 'menpo.image.base:Image.warp_to_mask', 'menpo.transform.base:Transform._apply_batched'])
+def c01_batched_warps(ctx, cls, tr):
+    """warp_to_shape / warp_to_mask with any batch_size give the image,
+    landmarks and mask of the unbatched warp (the sampling positions are the
+    integer template indices pushed through the transform in batches)."""
+    from menpo.image import BooleanImage
+    T, S = B.menpo_mods()
+    rs = ctx.nprng
+    im = _img(rs, cls, shape=(11, 13), ch=2)
+    tshape = (8, 9)
+    if tr == 'Affine':
+        t = T.Affine(np.array([[1.05, 0.1, 0.7], [-0.08, 0.95, 1.3], [0, 0, 1.]]))
+    elif tr == 'Rotation':
+        t = T.Rotation.init_from_2d_ccw_angle(12).compose_before(T.Translation([1.5, 2.25]))
+    elif tr == 'UniformScale':
+        t = T.UniformScale(1.15, 2)
+    else:
+        ref = np.array([[-1., -1.], [-1., 10.], [9., -1.], [9., 10.], [4., 4.5]])
+        tgt = ref * 1.1 + np.array([1.0, 1.2]) + 0.2 * rs.randn(*ref.shape)
+        t = getattr(T, tr)(S.PointCloud(ref), S.PointCloud(tgt))
+    kw = dict(warp_landmarks=True)
+    base = im.warp_to_shape(tshape, t, **kw)
+    for bs in (1, 7, 72, 500):
+        got = im.warp_to_shape(tshape, t, batch_size=bs, **kw)
+        sa, sb = _img_state(got), _img_state(base)
+        ctx.check_true('warp_to_shape/batch_size=%d==unbatched' % bs, len(sa) == len(sb) and all(p.shape == q.shape and np.allclose(p, q, atol=1e-10) for p, q in zip(sa, sb)))
+    if cls != 'BooleanImage':
+        m = BooleanImage(rs.rand(*tshape) > 0.3)
+        basem = im.warp_to_mask(m, t, **kw)
+        for bs in (1, 5, 100):
+            got = im.warp_to_mask(m, t, batch_size=bs, **kw)
+            sa, sb = _img_state(got), _img_state(basem)
+            ctx.check_true('warp_to_mask/batch_size=%d==unbatched' % bs, len(sa) == len(sb) and all(p.shape == q.shape and np.allclose(p, q, atol=1e-10) for p, q in zip(sa, sb)))
+
+
+# --------------------------- C06: images derived from an image own what they carry
+@contract('C06', 'derived_images_own_their_data', level='bounded', native_samples=2, configs=[dict(cls=c) for c in ('Image', 'MaskedImage', 'BooleanImage')],
+          functions=['menpo.feature.base:rebuild_feature_image', 'menpo.base:copy_landmarks_and_path', 'menpo.image.base:Image.as_masked',
+                     'menpo.image.masked:MaskedImage.as_unmasked', 'menpo.image.base:Image.from_vector', 'menpo.landmark.base:Landmarkable.landmarks'])
+def c06_derived_images(ctx, cls):
+    """every image obtained FROM an image (features, conversions, from_vector,
+    geometry ops, copy) carries owned copies of the landmarks, mask and pixels:
+    no mutable storage is reachable from both, so an edit of either one's
+    landmark groups, points, mask or pixels is invisible in the other."""
+    from .state import shared_storage, state_of, compare_states
+    import menpo.feature as F
+    rs = ctx.nprng
+    im = _img(rs, cls, shape=(16, 18), ch=2)
+    ops = [('copy', lambda i: i.copy()), ('crop', lambda i: i.crop([1, 2], [12, 14])), ('mirror', lambda i: i.mirror()), ('rescale', lambda i: i.rescale(0.75)),
+           ('from_vector', lambda i: i.from_vector(np.asarray(i.as_vector()).copy()))]
+    if cls != 'BooleanImage':
+        ops += [('no_op', F.no_op), ('gradient', F.gradient), ('gaussian_filter', lambda i: F.gaussian_filter(i, 1.0)), ('igo', F.igo), ('es', F.es),
+                ('normalize_std', F.normalize_std), ('normalize_norm', F.normalize_norm), ('daisy', lambda i: F.daisy(i, radius=3, rings=1)),
+                ('as_masked', lambda i: i.as_masked()) if cls == 'Image' else ('as_unmasked', lambda i: i.as_unmasked()),
+                ('extract_channels', lambda i: i.extract_channels(0)), ('as_greyscale', lambda i: i.as_greyscale(mode='average'))]
+    for name, op in ops:
+        src = im.copy()
+        ref = state_of(src)
+        out = op(src)
+        bad = shared_storage(out, src)
+        ctx.check_true('%s/result-shares-no-mutable-storage-with-the-source' % name, not bad, 'shared: %s' % (bad[:3],))
+        compare_states(ctx, '%s/source-unchanged' % name, state_of(src), ref)
+        if out.has_landmarks:
+            snap = np.array(src.landmarks['g'].points, copy=True)
+            out.landmarks['g'].points[...] = -1.0
+            out.landmarks['extra'] = out.landmarks['g'].copy()
+            ctx.check_true('%s/editing-the-result-landmarks-is-invisible-in-the-source' % name,
+                           list(src.landmarks) == ['g'] and np.array_equal(src.landmarks['g'].points, snap))
+
+
+# ------------------------------------ C18: size-changing features, every size
+@contract('C18', 'size_changing_feature_sizes', level='bounded', native_samples=1,
+          configs=[dict(cls=c, radius=r, step=s) for c in ('Image', 'MaskedImage') for r in (3, 7, 9) for s in (1, 2)],
+          functions=['menpo.feature.base:rebuild_feature_image', 'menpo.feature.features:daisy'])
+def c18_feature_sizes(ctx, cls, radius, step):
+    """a size-changing feature (DAISY) on images of EVERY size in a range (the
+    new size is an arithmetic function of the old one; rounding of the mask /
+    landmark rescale must not depend on which sizes happen to be hit): same
+    values as on the raw array, mask of the new shape, landmarks scaled by
+    new/old per axis, input untouched."""
+    from menpo.image import Image, MaskedImage
+    from menpo.feature import daisy
+    T, S = B.menpo_mods()
+    rs = ctx.nprng
+    lo = 2 * radius + 3
+    w = lo + 9
+    big = rs.rand(1, lo + 30, w)
+    for h in range(lo, lo + 30):
+        px = big[:, :h, :].copy()
+        arr = daisy(px, radius=radius, step=step, rings=1, histograms=2, orientations=4)
+        if cls == 'Image':
+            im = Image(px.copy())
+        else:
+            m = np.ones((h, w), dtype=bool)
+            m[0, 0] = False
+            im = MaskedImage(px.copy(), mask=m)
+        im.landmarks['g'] = S.PointCloud(np.array([[1.0, 2.0], [h - 1.0, w - 1.0], [h / 2.0, w / 3.0]]))
+        tag = 'rows=%d' % h
+        try:
+            out = daisy(im, radius=radius, step=step, rings=1, histograms=2, orientations=4)
+        except Exception as e:
+            ctx.check_true(tag + '/feature-accepts-this-size-like-the-array-call', False, '%s: %s' % (type(e).__name__, e))
+            continue
+        ctx.check_true(tag + '/kind-kept', type(out) is type(im))
+        close(ctx, tag + '/array-call==image-call', out.pixels, arr, 0)
+        nh, nw = arr.shape[1:]
+        if cls == 'MaskedImage':
+            ctx.check_true(tag + '/mask-has-the-new-shape', out.mask.shape == (nh, nw), '%s vs %s' % (out.mask.shape, (nh, nw)))
+        close(ctx, tag + '/landmarks-rescaled-to-the-new-size', out.landmarks['g'].points, im.landmarks['g'].points * np.array([nh / float(h), nw / float(w)]), 1e-9)
+        close(ctx, tag + '/input-pixels-untouched', im.pixels, px, 0)
+    ctx.case(dict(cls=cls, radius=radius, step=step, rows='%d..%d' % (lo, lo + 29)), count=30)
+
+
+# ---------------------- C04: interpolating warps on landmarks of any representation
+@contract('C04', 'warp_inverse_representation_independence', level='bounded', native_samples=2,
+          configs=[dict(cls=c, kernel=k) for c in ('ThinPlateSplines',) for k in ('default', 'R2LogRRBF')] + [dict(cls='PiecewiseAffine', kernel='-')],
+          functions=['menpo.transform.thinplatesplines:ThinPlateSplines.pseudoinverse', 'menpo.transform.rbf:R2LogR2RBF._apply', 'menpo.transform.rbf:R2LogRRBF._apply',
+                     'menpo.transform.piecewiseaffine.base:AbstractPWA.pseudoinverse'])
+def c04_warp_inverse_representation(ctx, cls, kernel):
+    """the reverse-fitted warp sends every target landmark back onto its source
+    landmark when the landmark sets are integer-typed / float32 / read-only /
+    Fortran-ordered, exactly as for float64 landmarks."""
+    T, S = B.menpo_mods()
+    rs = ctx.nprng
+    src = np.array([[0., 0.], [40., 0.], [0., 40.], [40., 40.], [20., 10.], [10., 30.]])
+    tgt = src * 1.5 + np.round(3 * rs.randn(*src.shape)) + np.array([5., -3.])
+    for pname in ('float64', 'int64', 'int32', 'float32', 'readonly', 'fortran'):
+        s_rep = src.copy() if pname == 'float64' else dict(personas(src, (pname,)))[pname]
+        t_rep = tgt.copy() if pname == 'float64' else dict(personas(tgt, (pname,)))[pname]
+        kw = {}
+        if cls == 'ThinPlateSplines' and kernel != 'default':
+            kw['kernel'] = getattr(T, kernel)(s_rep)
+        t = getattr(T, cls)(S.PointCloud(s_rep, copy=False), S.PointCloud(t_rep, copy=False), **kw)
+        tol = 1e-3 if pname == 'float32' else 1e-6
+        close(ctx, '%s/forward-interpolates' % pname, t.apply(src), tgt, tol)
+        inv = t.pseudoinverse()
+        close(ctx, '%s/inverse-maps-target-landmarks-onto-source' % pname, inv.apply(tgt), src, tol)
+        close(ctx, '%s/inverse-source-is-the-target' % pname, inv.source.points, tgt, 0)
+        close(ctx, '%s/inverse-target-is-the-source' % pname, inv.target.points, src, 0)
+        close(ctx, '%s/forward-still-interpolates-after-taking-the-inverse' % pname, t.apply(src), tgt, tol)
+        inv2 = inv.pseudoinverse()
+        close(ctx, '%s/inverse-of-the-inverse-interpolates-forward' % pname, inv2.apply(src), tgt, tol)
